@@ -518,6 +518,205 @@ fn commit_order(repo: &str, out: &str) -> Result<String, String> {
 // C06: read order
 // ------------------------------------------------------------------------------------------------
 
-fn read_order(_repo: &str, _out: &str) -> Result<String, String> {
-    Err("read-order: not implemented yet".into())
+/// `recv.read()` / `recv.read()?` with `recv = self.<field>` → the field name.
+fn read_of_self_field(e: &Expr) -> Option<(String, bool)> {
+    let (e, tried) = match e {
+        Expr::Try(t) => (&*t.expr, true),
+        o => (o, false),
+    };
+    if let Expr::MethodCall(m) = e {
+        if m.method == "read" && m.args.is_empty() {
+            if let Some(p) = path_string(&m.receiver) {
+                if let Some(f) = p.strip_prefix("self.") {
+                    if !f.contains('.') {
+                        return Some((f.to_string(), tried));
+                    }
+                }
+            }
+        }
+    }
+    None
+}
+
+/// Acquisitions of one `read()` constructor in evaluation order: `let x = self.f.read();` statements,
+/// then the fields of the returned struct literal in written order (Rust evaluates them in that
+/// order); a field initialised from a local refers back to its `let`.
+fn acquisitions(f: &FoundFn, what: &str) -> Result<Vec<String>, String> {
+    let mut out: Vec<String> = vec![];
+    let mut locals: Vec<String> = vec![];
+    let n = f.block.stmts.len();
+    for (i, st) in f.block.stmts.iter().enumerate() {
+        match st {
+            Stmt::Local(l) => {
+                let init = match &l.init {
+                    Some(i) => &*i.expr,
+                    None => return Err(format!("{what}: let without initialiser")),
+                };
+                if let Some((field, _)) = read_of_self_field(init) {
+                    out.push(field);
+                    locals.push(toks(&l.pat));
+                } else {
+                    let s = toks(init);
+                    // (`self.qs.read().await?` is the nested reader of proxy_read, checked by the caller)
+                    if s.contains(". read (") && s != "self . qs . read () . await ?" {
+                        return Err(format!("{what}: unrecognised acquisition `{s}`"));
+                    }
+                }
+            }
+            Stmt::Expr(e, None) if i + 1 == n => {
+                // Ok(Struct { .. })
+                let inner = match e {
+                    Expr::Call(c) if path_string(&c.func).as_deref() == Some("Ok") && c.args.len() == 1 => &c.args[0],
+                    o => return Err(format!("{what}: tail is not `Ok(Struct {{..}})`: `{}`", toks(o).chars().take(80).collect::<String>())),
+                };
+                let lit = match inner {
+                    Expr::Struct(s) => s,
+                    o => return Err(format!("{what}: tail is not a struct literal: `{}`", toks(o).chars().take(80).collect::<String>())),
+                };
+                for fv in &lit.fields {
+                    if let Some((field, _)) = read_of_self_field(&fv.expr) {
+                        out.push(field);
+                    } else {
+                        let s = toks(&fv.expr);
+                        if s.contains(". read (") {
+                            return Err(format!("{what}: unrecognised acquisition `{s}`"));
+                        }
+                    }
+                }
+            }
+            Stmt::Expr(e, _) => {
+                let s = toks(e);
+                if s.contains(". read (") {
+                    return Err(format!("{what}: acquisition in an unrecognised statement `{s}`"));
+                }
+            }
+            Stmt::Macro(_) | Stmt::Item(_) => {}
+        }
+    }
+    Ok(out)
+}
+
+/// server field read by a reader → the write-side cell (`Gen.CommitOrder.Cell`) it is a snapshot of
+fn read_cell(level: &str, field: &str) -> Option<&'static str> {
+    Some(match (level, field) {
+        ("idm", "oauth2rs") => "oauth2rs",
+        ("qs", "schema") => "schema",
+        ("qs", "cid_max") => "cid",
+        ("qs", "d_info") => "dInfo",
+        ("qs", "system_config") => "systemConfig",
+        ("qs", "feature_config") => "featureConfig",
+        ("qs", "accesscontrols") => "accesscontrols",
+        ("qs", "key_providers") => "keyProviders",
+        ("qs", "resolve_filter_cache") => "resolveFilterCacheWrite",
+        ("be", "idxmeta") => "idxmetaWr",
+        ("be", "ruv") => "ruv",
+        ("idl", "entry_cache") => "entryCache",
+        ("idl", "idl_cache") => "idlCache",
+        ("idl", "name_cache") => "nameCache",
+        ("idl", "idx_exists_cache") => "idxExistsCache",
+        ("idl", "allids") => "allids",
+        _ => return None,
+    })
+}
+
+fn read_order(repo: &str, out: &str) -> Result<String, String> {
+    let f_idm = parse_file(repo, "server/lib/src/idm/server.rs")?;
+    let f_qs = parse_file(repo, "server/lib/src/server/mod.rs")?;
+    let f_be = parse_file(repo, "server/lib/src/be/mod.rs")?;
+    let f_idl = parse_file(repo, "server/lib/src/be/idl_arc_sqlite.rs")?;
+    let f_sql = parse_file(repo, "server/lib/src/be/idl_sqlite.rs")?;
+
+    // IdmServer::proxy_read: `let qs_read = self.qs.read().await?;` then the struct literal
+    let pr = find_fn(&f_idm, "IdmServer::proxy_read")?;
+    let pr_src = toks(&pr.block);
+    if !pr_src.starts_with("{ let qs_read = self . qs . read () . await ? ;") {
+        return Err(format!("IdmServer::proxy_read does not begin with `let qs_read = self.qs.read().await?;`: `{}`", pr_src.chars().take(90).collect::<String>()));
+    }
+    let idm = acquisitions(&pr, "IdmServer::proxy_read")?;
+    let qs = acquisitions(&find_fn(&f_qs, "QueryServer::read")?, "QueryServer::read")?;
+    let be = acquisitions(&find_fn(&f_be, "Backend::read")?, "Backend::read")?;
+    let idl = acquisitions(&find_fn(&f_idl, "IdlArcSqlite::read")?, "IdlArcSqlite::read")?;
+
+    // how the SQLite read transaction begins
+    let rn = toks(&find_fn(&f_sql, "IdlSqliteReadTransaction::new")?.block);
+    let deferred = if rn.contains("\"BEGIN DEFERRED TRANSACTION\"") {
+        // a statement that reads the database inside `new` would pin the snapshot
+        if rn.contains("SELECT") || rn.contains("query") || rn.contains("prepare") {
+            return Err("IdlSqliteReadTransaction::new: BEGIN DEFERRED followed by other statements — shape not recognised".into());
+        }
+        true
+    } else if rn.contains("\"BEGIN IMMEDIATE TRANSACTION\"") || rn.contains("\"BEGIN EXCLUSIVE TRANSACTION\"") {
+        false
+    } else {
+        return Err(format!("IdlSqliteReadTransaction::new: unrecognised BEGIN: `{}`", rn.chars().take(120).collect::<String>()));
+    };
+    let sr = toks(&find_fn(&f_sql, "IdlSqlite::read")?.block);
+    if !sr.contains("IdlSqliteReadTransaction :: new (") {
+        return Err("IdlSqlite::read does not construct IdlSqliteReadTransaction::new".into());
+    }
+
+    // flatten: idm = [qs.., oauth2rs]; qs = [.., be, ..]; be = [idlayer, ..]; idl = [.., db, ..]
+    let mut flat: Vec<(String, String)> = vec![]; // (lean term, source)
+    let mut push_cell = |level: &str, field: &str, flat: &mut Vec<(String, String)>| -> Result<(), String> {
+        match read_cell(level, field) {
+            Some(c) => {
+                flat.push((format!(".cell .{c}"), format!("{level}: self.{field}.read()")));
+                Ok(())
+            }
+            None => Err(format!("{level} read(): `self.{field}.read()` is not a known snapshot of a transactional cell")),
+        }
+    };
+    let mut n_be = 0;
+    let mut n_idl = 0;
+    let mut n_db = 0;
+    for q in &qs {
+        if q == "be" {
+            n_be += 1;
+            for b in &be {
+                if b == "idlayer" {
+                    n_idl += 1;
+                    for i in &idl {
+                        if i == "db" {
+                            n_db += 1;
+                            flat.push((".dbBegin".into(), "idl: self.db.read()? = BEGIN on a pooled connection".into()));
+                        } else {
+                            push_cell("idl", i, &mut flat)?;
+                        }
+                    }
+                } else {
+                    push_cell("be", b, &mut flat)?;
+                }
+            }
+        } else {
+            push_cell("qs", q, &mut flat)?;
+        }
+    }
+    for i in &idm {
+        push_cell("idm", i, &mut flat)?;
+    }
+    if (n_be, n_idl, n_db) != (1, 1, 1) {
+        return Err(format!("expected exactly one be.read(), idlayer.read(), db.read(); found {n_be}/{n_idl}/{n_db}"));
+    }
+    let mut body = String::from("import KanidmModel.Generated.CommitOrder\nnamespace Kanidm.Gen.ReadOrder\nopen Kanidm.Gen.CommitOrder\n");
+    body += "/-- One snapshot acquisition of a read transaction. -/\ninductive Acq where\n  /-- read transaction of a transactional cell: the committed value at this instant, immutable afterwards -/\n  | cell (c : Cell)\n  /-- `BEGIN … TRANSACTION` of the SQLite read transaction -/\n  | dbBegin\nderiving DecidableEq, Repr\n";
+    body += "/-- `IdmServer::proxy_read` → `QueryServer::read` → `Backend::read` → `IdlArcSqlite::read`, flattened, in evaluation order. -/\ndef readSteps : List Acq := [\n";
+    for (i, (t, src)) in flat.iter().enumerate() {
+        body += &format!("  {t}{} -- `{src}`\n", if i + 1 == flat.len() { "" } else { "," });
+    }
+    body += "]\n";
+    body += &format!("/-- `IdlSqliteReadTransaction::new` executes `BEGIN DEFERRED TRANSACTION` and nothing else: the database\nsnapshot is taken by the first statement that reads, not by `read()`. -/\ndef dbSnapshotDeferred : Bool := {deferred}\n");
+    body += "end Kanidm.Gen.ReadOrder\n";
+    // own writer: the generated module imports the generated cell type, and `import` must come first
+    let path = format!("{out}/ReadOrder.lean");
+    let text = format!(
+        "-- GENERATED by vtranslate from server/lib/src/idm/server.rs (IdmServer::proxy_read), server/mod.rs (QueryServer::read), be/mod.rs (Backend::read), be/idl_arc_sqlite.rs (IdlArcSqlite::read), be/idl_sqlite.rs (IdlSqlite::read, IdlSqliteReadTransaction::new). Do not edit: rewritten on every check run.\n{}",
+        body.replacen("import KanidmModel.Generated.CommitOrder\n", "import KanidmModel.Generated.CommitOrder\nset_option linter.unusedVariables false\n", 1)
+    );
+    if !std::fs::read_to_string(&path).map(|old| old == text).unwrap_or(false) {
+        std::fs::write(&path, text).map_err(|e| format!("{path}: {e}"))?;
+    }
+    Ok(format!(
+        "ReadOrder: [{}] deferred={deferred}",
+        flat.iter().map(|(t, _)| t.trim_start_matches(".cell .").trim_start_matches('.').to_string()).collect::<Vec<_>>().join(", ")
+    ))
 }
